@@ -258,6 +258,10 @@ def run_modules(chk, d, repo, broken):
         if len(base) <= (400 if tier == "quick" else 4000):
             for k in range(1, len(base)):
                 mal.append((g, f"trunc@{k}", base[:k], False))
+    # hand-written malformed witnesses: the code-size wrap (reader.c:1482-1486), 1- and 2-function variants
+    for name, hx in (("codesize-wrap-1", "0061736d01000000010401600000030201000a05010101017f"),
+                     ("codesize-wrap-2", "0061736d0100000001040160000003030200000a08020101017f02000b")):
+        mal.append(("witness", name, bytes.fromhex(hx), False))
     corpus = sorted(glob.glob(os.path.join(vlib.REPO, "tests", "gen", "*.wasm")))
     for f in corpus:
         data = open(f, "rb").read()
@@ -275,8 +279,10 @@ def run_modules(chk, d, repo, broken):
                        if i % 997 == 0 else None)
         err_hist[real[i].split(";")[0] if not real[i].startswith("ok") else "ok"] += 1
         ok = same_class(real[i], model[i])
-        # a crash of the real reader must be predicted by the model as undefined behaviour
-        if real[i].startswith("crash") and model[i].startswith("ub "):
+        # a crash of the real reader must be predicted by the model as undefined behaviour; conversely, where the
+        # model says the C code computes a pointer outside the file (code-size wrap, reader.c:1482-1486) the real
+        # outcome is arbitrary: an error, a SIGSEGV, or nothing visible
+        if model[i].startswith("ub ") and (real[i].startswith("crash") or model[i] == "ub codeSizeUnderflow"):
             ok = True
         if not ok:
             nmis += 1
@@ -291,6 +297,7 @@ def run_modules(chk, d, repo, broken):
     chk.coverage["corpus_files"] = len(corpus)
     # sanitizer verdict <-> model `ub` on a subset (instrumented reader is slower)
     sub = [i for i in range(len(allcases)) if allcases[i][0] != "corpus"][:: (7 if tier == "quick" else 2)]
+    sub += [i for i in range(len(allcases)) if allcases[i][0] == "witness" and i not in sub]
     slines = [rd.line_for(allcases[i][2], allcases[i][3], True) for i in sub]
     sreal, reports = rd.run_lines(exe_san, slines, sanitized=True)
     smodel = vlib.DriverProc(READERDRIVER).batch(slines, timeout=1800)
@@ -299,7 +306,7 @@ def run_modules(chk, d, repo, broken):
         flagged = bool(reports.get(j)) or sreal[j].startswith("crash")
         mub = smodel[j].startswith("ub ")
         san_hist[(smodel[j].split(";")[0] if mub else "defined") + "/" + ("flagged" if flagged else "clean")] += 1
-        if flagged != mub:
+        if flagged != mub and smodel[j] != "ub codeSizeUnderflow":
             broken.append({"kind": "correspondence",
                            "msg": f"reader-dump(sanitized) {allcases[i][0]} {allcases[i][1]}: sanitizer {reports.get(j) or sreal[j][:60]} vs model `{smodel[j][:80]}`",
                            "hex": allcases[i][2].hex()[:4000]})
